@@ -69,6 +69,23 @@ theorem valid_cotree_assign_as_written_partial (x : List Bool) (pre k : Nat) :
   simp only [buildTree, if_true]
   exact cotreeAssignAsWritten_valid_of_empty x _
 
+/-- `CO_Tree::insert` (fix_c14_cotree_insert_atomic: build the element first, count it afterwards):
+no leak, no bad free, and a valid tree when the copy of the new element throws. -/
+theorem no_leak_cotree_insert (m pre k : Nat) (hm : m ≠ 0) :
+    (Run.cotreeInsert m pre k).live = initialLive pre ∧ (Run.cotreeInsert m pre k).bad = 0
+      ∧ (Run.cotreeInsert m pre k).valid = true := by
+  have := cotreeInsert_clean m hm (Tracks.ofStart pre k)
+  exact ⟨this.1.live, this.1.bad, this.2⟩
+
+example : (Run.cotreeInsert 3 1 0).thrown = true ∧ (Run.cotreeInsert 3 1 0).valid = true := by decide
+
+/-- Historical witness — as written `++size_` preceded the construction: after a failed copy the
+tree counts an element it does not have (the root of the double frees and crashes observed under
+`Grid`, `Polyhedron`, `MIP_Problem` and `CO_Tree` itself). -/
+theorem valid_cotree_insert_as_written_fails :
+    ¬ (∀ m pre k, m ≠ 0 → (Run.cotreeInsertAsWritten m pre k).valid = true) := by
+  intro h; have := h 3 0 0 (by decide); revert this; decide
+
 /-- `CO_Tree(Iterator, n)` **leaks as written**: one element, the copy of that element fails
 (events 0 and 1 are the two arrays of `init`): both arrays stay allocated. -/
 theorem no_leak_cotree_iter_as_written_fails :
